@@ -11,19 +11,20 @@ BASE = {
         "np_min": 1,
         "np_max": 4,
         "weights": {"set_value": 8, "set_initial": 0.5, "subject_to": 0.5, "clear_constraints": 0.2, "add_objective": 0.3, "solver": 0.2,
-                    "set_T": 0.2, "set_t0": 0.1, "late_sym": 0.1, "reject": 0.2, "save": 1, "load": 1, "method": 2},
+                    "set_T": 0.2, "set_t0": 0.1, "late_sym": 0.1, "reject": 0.2, "save": 1, "load": 1, "method": 2, "callback": 0},
         "p_real": 0.15,
     },
     "C10": {
         "max_steps": 12,
         "weights": {"set_initial": 9, "set_value": 0.5, "subject_to": 0.3, "clear_constraints": 0.1, "add_objective": 0.3, "solver": 0.2,
-                    "set_T": 0.3, "set_t0": 0.2, "late_sym": 0.1, "reject": 0.2, "save": 0.7, "load": 0.7, "method": 2},
+                    "set_T": 0.3, "set_t0": 0.2, "late_sym": 0.1, "reject": 0.2, "save": 0.7, "load": 0.7, "method": 2, "callback": 0},
         "p_base_guess": 0.5,
         "p_real": 0.1,
     },
     "C18": {
         "max_steps": 14,
-        "weights": {"save": 5, "load": 5},
+        # (a registered callback is a Python closure; pickling user functions is outside C18's feature list)
+        "weights": {"save": 5, "load": 5, "callback": 0},
         "p_real": 0.15,
     },
 }
@@ -58,4 +59,4 @@ def configure_world(w, prop):
         w.on_edit_raised.append(oracles.c10_edit_raised)
         w.on_fresh_failure.append(oracles.c10_fresh_failure)
     if prop == "C18":
-        pass
+        w.on_edit_raised.append(oracles.c18_edit_raised)
